@@ -153,6 +153,13 @@ func (c *diskCache) findMissingCasBlobsInternal(ctx context.Context, blobs []*pb
 			return errRequestCancelled
 		case <-waitCh: // Everything in the waitgroup has finished.
 		}
+
+		// A proxyCheck may have reported a miss just before the last one
+		// finished: then both cases above were ready and select picked one
+		// at random. All proxyChecks are done here, so check the flag.
+		if cancelledDueToFailFast {
+			return errMissingBlob
+		}
 	}
 
 	return nil
